@@ -319,3 +319,103 @@ pub(crate) fn k_channel_mask_from_str_total() {
         }
     }
 }
+
+// ---- BlockIterator::next: block sequencing rules of RFC 9639 8 (C11 / C12) ----
+// contract (the block parser read_block is replaced by a script of block kinds; the fLaC tag is real):
+//   the first block must be STREAMINFO, else MissingStreaminfo and nothing more;
+//   a second STREAMINFO is MultipleStreaminfo; a second SEEKTABLE / VORBIS_COMMENT / 32x32 PNG icon / general file icon is
+//   the corresponding Multiple* error and ends the iteration; one icon of each kind is fine (the two kinds are independent);
+//   every other block passes; a parse error is passed on and ends the iteration
+use std::sync::atomic::{AtomicUsize as MAtomicUsize, Ordering::Relaxed as MRelaxed};
+static G_BI_SCRIPT: [MAtomicUsize; 4] = [const { MAtomicUsize::new(0) }; 4];
+static G_BI_POS: MAtomicUsize = MAtomicUsize::new(0);
+const BK_STREAMINFO: usize = 0;
+const BK_SEEKTABLE: usize = 1;
+const BK_VORBIS: usize = 2;
+const BK_PNG_ICON: usize = 3;
+const BK_GENERAL_ICON: usize = 4;
+const BK_FRONT_COVER: usize = 5;
+const BK_PADDING: usize = 6;
+const BK_ERROR: usize = 7;
+fn mk_picture(t: PictureType) -> Block {
+    Block::Picture(Picture { picture_type: t, media_type: String::new(), description: String::new(), width: 0, height: 0, color_depth: 0, colors_used: None, data: Vec::new() })
+}
+fn stub_read_block<R: std::io::Read>(_it: &mut BlockIterator<R>) -> Option<Result<Block, Error>> {
+    let pos = G_BI_POS.fetch_add(1, MRelaxed);
+    if pos >= 4 { return None; }
+    Some(match G_BI_SCRIPT[pos].load(MRelaxed) {
+        BK_STREAMINFO => Ok(Block::Streaminfo(Streaminfo { minimum_block_size: 16, maximum_block_size: 16, minimum_frame_size: None, maximum_frame_size: None,
+            sample_rate: 44100, channels: NonZero::new(1).unwrap(), bits_per_sample: SignedBitCount::new::<16>(), total_samples: None, md5: None })),
+        BK_SEEKTABLE => Ok(Block::SeekTable(SeekTable { points: contiguous::Contiguous::default() })),
+        BK_VORBIS => Ok(Block::VorbisComment(VorbisComment { vendor_string: String::new(), fields: Vec::new() })),
+        BK_PNG_ICON => Ok(mk_picture(PictureType::Png32x32)),
+        BK_GENERAL_ICON => Ok(mk_picture(PictureType::GeneralFileIcon)),
+        BK_FRONT_COVER => Ok(mk_picture(PictureType::FrontCover)),
+        BK_PADDING => Ok(Block::Padding(Padding { size: BlockSize::try_from(0u32).unwrap() })),
+        _ => Err(Error::InvalidMetadataBlockSize),
+    })
+}
+fn outcome(item: Option<Result<Block, Error>>) -> usize {
+    // 0..=6: Ok(block of that kind); 10: None; 11.. errors
+    let r = match &item {
+        None => 10,
+        Some(Ok(Block::Streaminfo(_))) => BK_STREAMINFO,
+        Some(Ok(Block::SeekTable(_))) => BK_SEEKTABLE,
+        Some(Ok(Block::VorbisComment(_))) => BK_VORBIS,
+        Some(Ok(Block::Picture(p))) => match p.picture_type { PictureType::Png32x32 => BK_PNG_ICON, PictureType::GeneralFileIcon => BK_GENERAL_ICON, _ => BK_FRONT_COVER },
+        Some(Ok(_)) => BK_PADDING,
+        Some(Err(Error::MissingStreaminfo)) => 11,
+        Some(Err(Error::MultipleStreaminfo)) => 12,
+        Some(Err(Error::MultipleSeekTable)) => 13,
+        Some(Err(Error::MultipleVorbisComment)) => 14,
+        Some(Err(Error::MultiplePngIcon)) => 15,
+        Some(Err(Error::MultipleGeneralIcon)) => 16,
+        Some(Err(Error::InvalidMetadataBlockSize)) => 17,
+        Some(Err(_)) => 18,
+    };
+    std::mem::forget(item);
+    r
+}
+
+macro_rules! k_block_iterator {
+    ($name:ident, $first_is_streaminfo:expr, $icons_only:expr) => {
+#[kani::proof]
+#[kani::unwind(6)]
+#[kani::stub(BlockIterator::read_block, stub_read_block)]
+pub(crate) fn $name() {
+    let mut k: [u8; 3] = kani::any();
+    kani::assume(k[0] < 8 && k[1] < 8 && k[2] < 8);
+    if $first_is_streaminfo { k[0] = BK_STREAMINFO as u8; } else { kani::assume(k[0] != BK_STREAMINFO as u8); }
+    if $icons_only { kani::assume(k[1] >= 3 && k[1] <= 5 && k[2] >= 3 && k[2] <= 5); }
+    G_BI_SCRIPT[0].store(k[0] as usize, MRelaxed);
+    G_BI_SCRIPT[1].store(k[1] as usize, MRelaxed);
+    G_BI_SCRIPT[2].store(k[2] as usize, MRelaxed);
+    G_BI_SCRIPT[3].store(BK_PADDING, MRelaxed);
+    let mut it = BlockIterator::new(&b"fLaC"[..]);
+    let o0 = outcome(it.next());
+    let o1 = outcome(it.next());
+    let o2 = outcome(it.next());
+    let (k0, k1, k2) = (k[0] as usize, k[1] as usize, k[2] as usize);
+    if k0 != BK_STREAMINFO {
+        vk_assert!(o0 == 11 && o1 == 10 && o2 == 10, "a stream whose first block is not STREAMINFO is MissingStreaminfo, and nothing more is read");
+        return;
+    }
+    vk_assert!(o0 == BK_STREAMINFO, "the leading STREAMINFO block is passed on");
+    // second block
+    let unique = |k: usize| k == BK_SEEKTABLE || k == BK_VORBIS || k == BK_PNG_ICON || k == BK_GENERAL_ICON;
+    let exp1 = if k1 == BK_STREAMINFO { 12 } else if k1 == BK_ERROR { 17 } else { k1 };
+    vk_assert!(o1 == exp1, "second block: passed on; a second STREAMINFO is MultipleStreaminfo; a parse error is passed on");
+    // third block
+    let ended = k1 == BK_ERROR;
+    let exp2 = if ended { 10 }
+        else if k2 == BK_STREAMINFO { 12 }
+        else if k2 == BK_ERROR { 17 }
+        else if unique(k2) && k2 == k1 { 11 + k2 + 1 }
+        else { k2 };
+    vk_assert!(o2 == exp2, "third block: a repeated SEEKTABLE / VORBIS_COMMENT / PNG icon / general icon is the matching Multiple* error, two different kinds (incl. one icon of each kind) are both passed on; nothing follows a parse error");
+}
+    };
+}
+k_block_iterator!(k_block_iterator_icons, true, true);
+k_block_iterator!(k_block_iterator_all_kinds, true, false);
+k_block_iterator!(k_block_iterator_no_streaminfo, false, false);
